@@ -55,18 +55,18 @@ def task(R, item):
             for o in res.outcomes:
                 if o.kind == "panic":
                     continue       # C02 / C01
-                fin = TR.dfa_run(o.state.trace, res.loops, {0}, D.frame_step)
+                fin = TR.dfa_run(o.state.trace, res.loops, {0}, D.frame_step, o.state.facts, True)
                 if C.result_variant(o.value) == 0 or (isinstance(o.value, SymV) and not fin):
                     pass
                 is_ok = C.result_variant(o.value) == 0
                 is_tail = isinstance(o.value, SymV)      # result of the last interface call returned as-is
                 if is_ok or is_tail:
                     nsucc += 1
-                    R.ob("C08a-framing", "%s|complete" % tag, 0 in fin,
+                    R.ob("C08a-framing", "%s|complete" % tag, 0 in fin and TR.REJECT not in fin,
                          "a successful %s does not consist of complete groups CASET RASET RAMWR pixels (DFA states %s)" % (nm, sorted(fin)),
                          sample={"entry": nm, "orientation": [q * 90, m], "dfa_final": sorted(fin)})
                 else:
-                    R.ob("C08a-framing", "%s|error-prefix|%r" % (tag, o.value), bool(fin),
+                    R.ob("C08a-framing", "%s|error-prefix|%r" % (tag, o.value), bool(fin) and TR.REJECT not in fin,
                          "an error path of %s is not a prefix of the framing language" % nm)
             R.floor("%s paths" % tag, nsucc, 1)
             # (c) / (d) for draw_iter: every group emitted inside its loop, on the facts of that iteration (loop
